@@ -290,6 +290,8 @@ func Versions(name string, level int) G {
 	z := Lit("0", "1", "01", "010", "001", "0010", "00", "10", "100", "011", "11")
 	pre := Lit("1.", "1.0.", "v1.0.", "1.0-", "1.0_p", "1.0.0-rc.", "1.0-r", "1:1.", "1.0~", "1.0rc")
 	g = Alt(g, Seq(pre, z), Seq(Lit("1."), z, Lit("."), Lit("0", "1", "01", "010", "10")))
+	// one-slot substitution closure of the ecosystem's typical shapes (see SlotMutations)
+	g = Alt(g, SlotFamily(name))
 	return g
 }
 
